@@ -21,10 +21,11 @@ CIRCUITSIM_ASSUME = [
 CHECK = {
     "C07": dict(
         bin="run_circuitsim", build="external", pkg="run_circuitsim", level="exploration",
+        lock_yield=dict(dir="htlcswitch", package="htlcswitch", files=["circuit_map.go"]),
         quick=dict(runs=64000, wall=80), thorough=dict(runs=1500000, wall=1100),
-        rule="one evaluation = one seeded run of one arm. seq/fault-free and seq/faulty: a sequence of 30-90 circuit-map calls, channel events (sign, revoke, link flap, close pending/fully, resolution messages) and restarts issued by one client; the reference model is compared with every return value and with the complete lookup view (LookupCircuit over all incoming keys, LookupOpenCircuit over all outgoing keys, NumPending, NumOpen, closing set probed with FailCircuit) after every call; faulty adds FailWrite/CrashBefore/CrashAfter on the write of any call and on the 1st-4th write of NewCircuitMap. race: 2-3 client goroutines interleaved at every transaction entry and call return (<= 36 calls after a model-checked prelude), linearizability of the invoke/return history checked with porcupine, exact durable state after a clean drain or a crash at any scheduling point, restart oracle. enum: one of the 48 interleavings of CloseCircuit / FailCircuit / DeleteCircuits(memory, disk) on one circuit x 4 starting situations. non-trivial = (seq/fault-free) a restart with pending circuits and >= 3 calls after it / (seq/faulty) a fault fired and a call completed after it / (race) >= 2 calls issued while another was in flight / (enum) always; distinct = distinct event-trace hash",
+        rule="one evaluation = one seeded run of one arm. seq/fault-free and seq/faulty: a sequence of 30-90 circuit-map calls, channel events (sign, revoke, link flap, close pending/fully, resolution messages) and restarts issued by one client; the reference model is compared with every return value and with the complete lookup view (LookupCircuit over all incoming keys, LookupOpenCircuit over all outgoing keys, NumPending, NumOpen, closing set probed with FailCircuit) after every call; faulty adds FailWrite/CrashBefore/CrashAfter on the write of any call and on the 1st-4th write of NewCircuitMap. race: 2-3 client goroutines interleaved at every transaction entry, before every mutex acquisition inside circuit_map.go and at call return (<= 36 calls after a model-checked prelude), linearizability of the invoke/return history checked with porcupine, exact durable state after a clean drain or a crash at any scheduling point, restart oracle. enum: one of the 48 interleavings of CloseCircuit / FailCircuit / DeleteCircuits(memory, disk) on one circuit x 4 starting situations. non-trivial = (seq/fault-free) a restart with pending circuits and >= 3 calls after it / (seq/faulty) a fault fired and a call completed after it / (race) >= 2 calls issued while another was in flight / (enum) always; distinct = distinct event-trace hash",
         states_measure="distinct (pending, open, closing, restored-half-open counts, epoch mod 3, channel statuses) tuples; race: (pending, open, calls in flight, history length/4)",
-        expected_probes=["probe_commit_fail_loaded_halfopen", "probe_commit_drop_keystone", "probe_commit_drop_in_mailbox",
+        expected_probes=["probe_parked_before_lock", "probe_commit_fail_loaded_halfopen", "probe_commit_drop_keystone", "probe_commit_drop_in_mailbox",
                          "probe_duplicate_inside_batch", "probe_duplicate_keystone_rejected", "probe_open_unknown_rejected",
                          "probe_second_response_rejected", "probe_trim_rolled_back", "probe_restart_rolled_back_uncommitted",
                          "probe_purged_closed_incoming", "probe_purged_closed_outgoing", "probe_kept_for_resolution_message",
@@ -37,10 +38,10 @@ CHECK = {
 }
 
 ENGINE = {"name": "circuitsim", "path": "/verif/sim/circuitsim", "serves_properties": ["C07"],
-          "kind_free_text": "real htlcswitch circuit map on a SimKV database shared with real channeldb channel records; decision-table reference model (sequential + porcupine), cooperative scheduler for 2-3 clients parked at transaction entry, write-failure/crash injection inside calls and inside NewCircuitMap, restart oracle with closed channels / resolution messages / NextLocalHtlcIndex"}
+          "kind_free_text": "real htlcswitch circuit map on a SimKV database shared with real channeldb channel records; decision-table reference model (sequential + porcupine), cooperative scheduler for 2-3 clients parked at transaction entry and before every mutex acquisition of the circuit map (instrumented copy via -overlay), write-failure/crash injection inside calls and inside NewCircuitMap, restart oracle with closed channels / resolution messages / NextLocalHtlcIndex"}
 
 _NOTE = ("Trusted: bbolt transaction atomicity; the reference model (about 250 lines, written from the doc comments of circuit_map.go and the property text); "
-         "the caller discipline listed under assumptions. Interleavings are explored at transaction-entry granularity only (lock-free races inside one critical section are invisible). "
+         "the caller discipline listed under assumptions. Interleavings are explored at two kinds of points: the entry of every database transaction and - through a build-time overlay that compiles a copy of circuit_map.go with a hook call inserted before every mutex acquisition, /repo untouched - before every Lock/RLock of the circuit map, so every ordering of its critical sections is reachable; races on data accessed without any lock remain invisible. "
          "FailWrite is not combined with concurrent clients (a failed CommitCircuits/DeleteCircuits is transiently visible, which is not linearizable and not judged). "
          "Genuine shortfalls of start-up trimming against the property's last sentence are reported as known-finding candidates (restart-untrimmed: pending-close, purge-gap, expiry-gap); "
          "the scenarios that reach them are confined to 1/8 of the sequential runs each so that the rest of the batch is unaffected. Without the KNOWN_FINDINGS entries in known_findings.json the check exits 1 on the unchanged tree.")
